@@ -49,7 +49,7 @@ def slices(quick: bool) -> Dict[str, Dict[str, Any]]:
                        fullreads=False, slnames=[1] if quick else [1, 2]),
         # two writes: one representative per access path, then the full alphabet
         'write2': dict(minlen=2, maxlen=2 if quick else 3, maxw=2, first='small', wrops=ALL_OPS,
-                       wrsteps=[1, 2] if quick else [0, 1, 2, 3], rdsteps=[1], fullreads=False, slnames=[1],
+                       wrsteps=[1, 2] if quick else [1, 2, 3], rdsteps=[1], fullreads=False, slnames=[1],
                        wrsc=[True] if quick else [True, False]),
     }
 
@@ -85,8 +85,9 @@ def check_and_emit(ctx: core.Ctx, name: str, params: Dict[str, Any], nshards: in
 SOLVER_PREFIXES = ('solve_period', 'solve-', 'solve[')
 
 
-def replay_records(ctx: core.Ctx, records: List[Dict[str, Any]], *, all_types: bool, what: str, all_classes: bool = True) -> None:
-    payloads = [{'records': ch, 'all_types': all_types, 'all_classes': all_classes, 'seed': ctx.seed}
+def replay_records(ctx: core.Ctx, records: List[Dict[str, Any]], *, all_types: bool, what: str, all_classes: bool = True,
+                   all_forms: bool = True) -> None:
+    payloads = [{'records': ch, 'all_types': all_types, 'all_classes': all_classes, 'all_forms': all_forms, 'seed': ctx.seed}
                 for ch in core.chunks(records, core.NCPU * 2)]
     outs = core.run_workers('harness.replay_span', payloads)
     n = sum(o['n'] for o in outs)
@@ -143,7 +144,10 @@ def run(ctx: core.Ctx) -> None:
         t0 = time.time()
         recs = check_and_emit(ctx, name, sl[name])
         t1 = time.time()
-        replay_records(ctx, recs, all_types=(name == 'reads' or not quick), what=name, all_classes=(name != 'write2'))
+        # reads: every concrete type x label spelling x {container, model}.  write1 / write2: quick replays each behaviour on one
+        # (type, spelling, class) in rotation; thorough on every type of the behaviour's kind (write1: both spellings), classes in rotation
+        replay_records(ctx, recs, all_types=(name == 'reads' or not quick), what=name, all_classes=(name == 'reads'),
+                       all_forms=(name != 'write2'))
         ctx.extra.setdefault('phase_wall_s', {})[name] = {'tlc': round(t1 - t0, 1), 'replay': round(time.time() - t1, 1)}
     ctx.exhaustive = True
     ctx.extra['bound'] = {'span_length': n, 'label_ids': 5, 'steps': [0, 1, 2, 3], 'writes_per_history': 2,
